@@ -216,15 +216,15 @@ fn short_inputs(i: u64, st: &mut Stats) -> CaseResult {
 pub fn subs() -> Vec<Sub> {
     vec![
         Sub { prop: "C11", name: "item-sequences", rule: "1-6 well-formed items (preferred heads incl. indefinite containers, or arbitrary framings): token list == flattened head list of the model; Encoder::tokens(tokens) == preferred-head form of the same sequence; distinct by input",
-              kind: Kind::Random { quick: 100_000, thorough: 5_000_000, tape: 1024, f: item_sequences } },
+              kind: Kind::Random { quick: 500_000, thorough: 5_000_000, tape: 1024, f: item_sequences } },
         Sub { prop: "C11", name: "all-halves", rule: "every half pattern except signalling NaNs: token value and identity re-encoding",
               kind: Kind::Enumerate { quick: 1 << 16, thorough: 1 << 16, f: all_halves, complete_quick: true, complete_thorough: true } },
         Sub { prop: "C11", name: "all-simple", rule: "every encodable simple value",
               kind: Kind::Enumerate { quick: 256, thorough: 256, f: all_simple, complete_quick: true, complete_thorough: true } },
         Sub { prop: "C11", name: "token-vectors", rule: "arbitrary sequences of 1-64 tokens over all 26 variants (not necessarily balanced): encode then tokenise gives value-equal tokens (integers by value, floats by value with NaN ~ NaN); to_vec(&[Token]) == array head + same bytes",
-              kind: Kind::Random { quick: 60_000, thorough: 3_000_000, tape: 4096, f: token_vectors } },
+              kind: Kind::Random { quick: 300_000, thorough: 3_000_000, tape: 4096, f: token_vectors } },
         Sub { prop: "C11", name: "arbitrary-bytes", rule: "random and mutated inputs: at most one token per byte, iteration ends and stays ended, step budget 64*len+1024",
-              kind: Kind::Random { quick: 100_000, thorough: 5_000_000, tape: 512, f: arbitrary_bytes } },
+              kind: Kind::Random { quick: 500_000, thorough: 5_000_000, tape: 512, f: arbitrary_bytes } },
         Sub { prop: "C11", name: "short-inputs", rule: "all inputs of length <= 2 (thorough: <= 3), same oracle",
               kind: Kind::Enumerate { quick: 1 + 256 + 65536, thorough: 1 + 256 + 65536 + (1 << 24), f: short_inputs, complete_quick: true, complete_thorough: true } },
     ]
